@@ -144,7 +144,10 @@ func NewQueue(dirPath string, pageSize int64) (Queue, error) {
 
 	q.indexPageFct = indexPageFct
 
-	hasMeta := fileutil.Exist(filepath.Join(dirPath, metaPath, fmt.Sprintf("%d.bat", metaPageIndex)))
+	// a completely initialized queue always has an index page; if the process died while the queue was created,
+	// the meta page may exist but still holds zeros, which would read as "sequence 0 appended and acknowledged".
+	hasMeta := fileutil.Exist(filepath.Join(dirPath, metaPath, fmt.Sprintf("%d.bat", metaPageIndex))) &&
+		indexPageFct.Size() > 0
 
 	// init meta page factory
 	var metaPageFct page.Factory
